@@ -13,7 +13,7 @@ impl Scenario for C04 {
         "Seeded sessions: 1-4 worker threads x 1-3 channels issuing every synchronous operation and its nowait variant; the broker answers each call with unique values (queue names, counts, tags, get content) after a per-reply think time of up to 5 ms, so replies overtake each other across channels, and its output mux interleaves channels. Oracle: k-th synchronous call on a channel returned exactly the k-th reply generated for that channel, not before that reply was on the wire; nowait calls return without any reply. Non-trivial = >=2 channels had calls in flight concurrently (overlapping invoke/return intervals on different channels) or replies were sent in a different cross-channel order than the requests arrived; distinct = schedule trace hash.".to_string()
     }
     fn plan(&self, thorough: bool, seed: u64) -> Vec<CaseSpec> {
-        plan_random("C04", "rpc", seed, if thorough { 120_000 } else { 6_000 })
+        plan_random("C04", "rpc", seed, if thorough { 200_000 } else { 12_000 })
     }
     fn run_case(&self, spec: &CaseSpec, text: bool) -> CaseReport {
         let mut cs = spec.stream();
